@@ -107,6 +107,7 @@ End Macro.
 
 (* The float instance of [reread]: `{:?}` on f64 prints `inf` / `-inf` / `NaN` for the
    non-finite values (identifiers, not literals) and otherwise a shortest-round-trip decimal
-   that rustc reads back to the same bits (assumption R2, measured). *)
-Definition float_finite (x : float) : Prop := PrimFloat.is_finite x = true.
-Definition float_reread (x : float) : option float := if PrimFloat.is_finite x then Some x else None.
+   that rustc reads back to the same bits (assumption R2, measured).  Finiteness is the
+   parsers' own test [is_finite] (Model/Parse.v: x - x == 0), at the float instance. *)
+Definition float_finite (x : float) : Prop := @is_finite float FNum x = true.
+Definition float_reread (x : float) : option float := if @is_finite float FNum x then Some x else None.
